@@ -673,7 +673,9 @@ def front_end(ctx, f_front):
                 shape_ok = r.kind == "return" and isinstance(v, tuple) and len(v) == 3 and v[0] == "kernel" and v[1] == kname and len(v[2]) == len(argf())
                 cl = (f"quasirandom(d1{', d2' if batch else ''}, method={method!r}, seed) returns {kname}({'seed, seed+d1-1, d2' if batch else 'seed, d1'}): "
                       "count d1 points / one d1-dimensional point, seeds seed..seed+d1-1")
-                ctx.prove(f"{ident}/kernel/path{k}", r.pc, z3.BoolVal(bool(shape_ok)), clause=cl, replay=rp, fn=f_front)
+                # (when the symbolic run does not END in a recognisable kernel call the obligation is about the shape of the run, not a verdict: its replay -- the real
+                # front end against the real kernels -- decides; see checkctx `structural`)
+                ctx.prove(f"{ident}/kernel/path{k}", r.pc, z3.BoolVal(bool(shape_ok)), clause=cl, replay=rp, fn=f_front, **({} if shape_ok else {"structural": True}))
                 if shape_ok:
                     for j, (got, exp) in enumerate(zip(v[2], argf())):
                         ctx.prove(f"{ident}/arg{j}/path{k}", r.pc, got == exp, clause=cl, replay=rp, fn=f_front)
